@@ -253,3 +253,49 @@ Section Sync.
       + intros u Hu. apply ndiff_In in Hu. tauto.
   Qed.
 End Sync.
+
+(* the first update_selected of a fresh SelectedMailbox loads everything *)
+Lemma sync_first b s : BoxInv b ->
+  sel_modseq s = None -> sel_view s = view_empty -> sel_hide s = false ->
+  let s' := sync b s in
+  SelInv b s' /\ v_sorted (sel_view s') = mb_uids b
+  /\ sel_hide s' = false /\ sel_box s' = sel_box s /\ sel_readonly s' = sel_readonly s
+  /\ sel_prev s' = sel_prev s /\ sel_silenced s' = sel_silenced s /\ sel_recent s' = sel_recent s.
+Proof.
+  intros IB Hm Hv Hh. cbn zeta. unfold sync. rewrite Hm. unfold add_updates, with_modseq.
+  cbn [sel_view sel_hide sel_modseq sel_box sel_readonly sel_prev sel_silenced sel_recent].
+  rewrite Hv, Hh.
+  set (msgs := map (fun m => (m_uid m, m_flags m)) (mb_msgs b)).
+  assert (Mfst : map fst msgs = mb_uids b).
+  { unfold msgs, mb_uids. rewrite map_map. reflexivity. }
+  assert (Se : ssorted (v_sorted view_empty)) by exact I.
+  assert (Qe : seqs_ok (v_seqs view_empty) (v_sorted view_empty)).
+  { intros i u H. destruct i; discriminate. }
+  set (v1 := view_update msgs view_empty).
+  assert (S1 : ssorted (v_sorted v1)) by (apply vu_ssorted; auto).
+  assert (Q1 : seqs_ok (v_seqs v1) (v_sorted v1)) by (apply vu_seqs_ok; auto).
+  assert (In1 : forall u, In u (v_sorted v1) <-> In u (mb_uids b)).
+  { intros u. unfold v1. rewrite vu_In by auto. rewrite Mfst. cbn. tauto. }
+  assert (P1 : v_pending v1 = []) by (unfold v1; rewrite vu_pending; reflexivity).
+  assert (V2 : view_remove [] false v1 = MkView (v_sorted v1) (v_seqs v1) (v_fkeys v1) []).
+  { unfold view_remove. rewrite P1. cbn [app existsb]. reflexivity. }
+  rewrite V2. cbn [app].
+  assert (Eq1 : v_sorted v1 = mb_uids b).
+  { apply ssorted_ext; auto. apply (bi_sorted _ IB). }
+  assert (Kin : forall u m, mb_alive u b = Some m -> aget u (v_fkeys v1) = Some (m_flags m)).
+  { intros u m A. apply vu_fkeys_in.
+    - rewrite Mfst. apply ssorted_NoDup, (bi_sorted _ IB).
+    - unfold msgs. apply find_msg_Some in A as [A1 A2]. apply in_map_iff. exists m. split; auto.
+      rewrite A1. reflexivity. }
+  split; [|repeat split; auto].
+  - constructor; cbn [sel_view sel_modseq v_sorted v_seqs v_fkeys v_pending]; auto.
+    + exists (ms_highest (mb_log b)). split; [reflexivity|]. split; [lia|]. split.
+      * intros u q L _. split; [apply In1, (bi_alive _ IB); eauto|apply Kin].
+      * intros u q L _. left. rewrite In1. intros A. apply (bi_alive _ IB) in A as [q' A]. congruence.
+    + intros u Hu. apply alive_known; auto. apply In1, Hu.
+    + intros u [].
+    + intros u A Hn. exfalso. apply Hn, In1, A.
+    + intros u H. apply vu_kdom in H as [H|H]; [apply In1; rewrite <- Mfst; exact H|].
+      exfalso. apply H. reflexivity.
+  - unfold ndiff. apply filter_all. intros; reflexivity.
+Qed.
